@@ -13,12 +13,19 @@ import (
 var extraPrelude = `(define-fun goquo ((a Int) (b Int)) Int (ite (>= a 0) (ite (> b 0) (div a b) (- (div a (- b)))) (ite (> b 0) (- (div (- a) b)) (div (- a) (- b)))))
 (define-fun gorem ((a Int) (b Int)) Int (- a (* b (goquo a b))))
 (define-fun f2i64 ((x F64)) BV64 (ite (and (fp.leq ` + tF64(-9223372036854775808.0).S + ` x) (fp.lt x ` + tF64(9223372036854775808.0).S + `)) ((_ fp.to_sbv 64) RTZ x) #x8000000000000000))
+;@opaque f2i64 ofInt
+(define-fun ofInt ((b BV64)) F64 ((_ to_fp 11 53) RNE b))
 (declare-fun str.of ((Array Int Int) Int Int) Str)
 (declare-fun str.blen (Str) Int)
 (assert (forall ((a (Array Int Int)) (o Int) (n Int)) (! (=> (>= n 0) (= (cplen (str.of a o n)) n)) :pattern ((str.of a o n)))))
 (assert (forall ((a (Array Int Int)) (o Int) (n Int) (k Int)) (! (=> (and (<= 0 k) (< k n)) (= (cp (str.of a o n) k) (select a (+ o k)))) :pattern ((cp (str.of a o n) k)))))
 (declare-fun fmt.v (Val) Str)
 (declare-fun fmt.sprintf (Str (Array Int Val) Int Int) Str)
+(declare-fun fmt.sprintf0 (Str) Str)
+(declare-fun fmt.sprintf1 (Str Val) Str)
+(declare-fun fmt.sprintf2 (Str Val Val) Str)
+(declare-fun fmt.sprintf3 (Str Val Val Val) Str)
+(declare-fun fmt.sprintf4 (Str Val Val Val Val) Str)
 (declare-fun fmt.sprintln ((Array Int Val) Int Int) Str)
 (declare-fun fmt.sprint ((Array Int Val) Int Int) Str)
 (declare-const str_nl Str)
@@ -36,6 +43,9 @@ var extraPrelude = `(define-fun goquo ((a Int) (b Int)) Int (ite (>= a 0) (ite (
 (declare-fun ext.fileext (Str) Str)
 (declare-fun ext.builder.add (Str Int) Str)
 (declare-fun ext.errtext (Val) Str)
+(declare-fun refl.box (Val) Int)
+(declare-fun refl.ptr (Int) Int)
+(assert (forall ((r Int)) (! (= (refl.ptr (refl.box (VObj r))) r) :pattern ((refl.box (VObj r))))))
 `
 
 // I/O ghost components and their sorts.
@@ -75,6 +85,23 @@ func writeLog(fe *FuncEnc, st *State, which string, text Term) {
 func varargs(fe *FuncEnc, st *State, s Term) (Term, Term, Term) {
 	e := fe.comp(st, "E_Val", arrSort(SInt, arrSort(SInt, SVal)))
 	return tSelect(e, slRef(s)), slOff(s), slLen(s)
+}
+
+// formatted renders fmt.Sprintf(format, args...): fixed small operand lists get a canonical term.
+func formatted(fe *FuncEnc, st *State, format Term, s Term, v ssa.Value) Term {
+	if n, ok := constLenVarargs(v); ok && n <= 4 {
+		row, off, _ := varargs(fe, st, s)
+		args := []Term{format}
+		for k := int64(0); k < n; k++ {
+			args = append(args, tSelect(row, tAdd(off, tInt(k))))
+		}
+		return Term{app(fmt.Sprintf("fmt.sprintf%d", n), args...), SStr}
+	}
+	if c, ok := v.(*ssa.Const); ok && c.Value == nil {
+		return Term{app("fmt.sprintf0", format), SStr}
+	}
+	row, off, n := varargs(fe, st, s)
+	return Term{app("fmt.sprintf", format, row, off, n), SStr}
 }
 
 func single(fe *FuncEnc, st *State, s Term, v ssa.Value) (Term, bool) {
@@ -120,8 +147,7 @@ func init() {
 			}},
 		"fmt.Printf": {mods: []string{"G_io_Out", "G_io_OutN"}, note: "fmt.Printf writes to stdout",
 			fn: func(fe *FuncEnc, f *Frame, a []Term, av []ssa.Value, st *State, p Term, pos token.Pos) []Term {
-				row, off, n := varargs(fe, st, a[1])
-				writeLog(fe, st, "Out", fe.define("outtext", Term{app("fmt.sprintf", a[0], row, off, n), SStr}))
+				writeLog(fe, st, "Out", fe.define("outtext", formatted(fe, st, a[0], a[1], av[1])))
 				return []Term{fe.fresh("n", SInt), Term{"VNil", SVal}}
 			}},
 		"fmt.Fprintf": {mods: []string{"G_io_Err", "G_io_ErrN"}, note: "fmt.Fprintf is only ever called with os.Stderr (checked syntactically)",
@@ -138,8 +164,7 @@ func init() {
 				if !ok {
 					engErr("%s: fmt.Fprintf to a writer other than os.Stderr", fe.name)
 				}
-				row, off, n := varargs(fe, st, a[2])
-				writeLog(fe, st, "Err", fe.define("errtext", Term{app("fmt.sprintf", a[1], row, off, n), SStr}))
+				writeLog(fe, st, "Err", fe.define("errtext", formatted(fe, st, a[1], a[2], av[2])))
 				return []Term{fe.fresh("n", SInt), Term{"VNil", SVal}}
 			}},
 		"fmt.Sprintf": {note: "fmt.Sprintf is an uninterpreted function of its format and operands; \"%v\" of one operand is fmt.v(operand)",
@@ -149,8 +174,7 @@ func init() {
 						return []Term{Term{"(fmt.v " + v.S + ")", SStr}}
 					}
 				}
-				row, off, n := varargs(fe, st, a[1])
-				return []Term{Term{app("fmt.sprintf", a[0], row, off, n), SStr}}
+				return []Term{formatted(fe, st, a[0], a[1], av[1])}
 			}},
 		"fmt.Sprint": {note: "fmt.Sprint is uninterpreted",
 			fn: func(fe *FuncEnc, f *Frame, a []Term, av []ssa.Value, st *State, p Term, pos token.Pos) []Term {
@@ -241,6 +265,14 @@ func init() {
 		"(time.Time).UnixMilli": {note: "Time.UnixMilli returns the clock reading as int64",
 			fn: func(fe *FuncEnc, f *Frame, a []Term, av []ssa.Value, st *State, p Term, pos token.Pos) []Term {
 				return []Term{Term{"(i2s " + a[0].S + ")", SBV64}}
+			}},
+		"reflect.ValueOf": {note: "reflect.ValueOf boxes a value (uninterpreted injective box)",
+			fn: func(fe *FuncEnc, f *Frame, a []Term, av []ssa.Value, st *State, p Term, pos token.Pos) []Term {
+				return []Term{Term{"(refl.box " + a[0].S + ")", SInt}}
+			}},
+		"(reflect.Value).Pointer": {note: "reflect.Value.Pointer of a map is its reference (identity)",
+			fn: func(fe *FuncEnc, f *Frame, a []Term, av []ssa.Value, st *State, p Term, pos token.Pos) []Term {
+				return []Term{Term{"(refl.ptr " + a[0].S + ")", SInt}}
 			}},
 		"bufio.NewScanner": {note: "bufio.Scanner over stdin: each Scan consumes one line of the ghost input",
 			fn: func(fe *FuncEnc, f *Frame, a []Term, av []ssa.Value, st *State, p Term, pos token.Pos) []Term {
